@@ -177,6 +177,35 @@ def parse_tla_value(s):
     return v
 
 
+def _join_wrapped(lines):
+    """TLC pretty-prints values wider than ~80 columns over several lines, starting with '<< '.
+    Re-join such a value into one line in the compact form '<<"TAG", ...>>'."""
+    out = []
+    i = 0
+    while i < len(lines):
+        ln = lines[i]
+        if ln.startswith('<< "'):
+            buf = [ln]
+            depth = ln.count("<<") - ln.count(">>")
+            i += 1
+            while depth > 0 and i < len(lines):
+                buf.append(lines[i].strip())
+                depth += lines[i].count("<<") - lines[i].count(">>")
+                i += 1
+            j = " ".join(buf)
+            j = re.sub(r"<<\s+", "<<", j)
+            j = re.sub(r"\s+>>", ">>", j)
+            j = re.sub(r"\{\s+", "{", j)
+            j = re.sub(r"\s+\}", "}", j)
+            j = re.sub(r"\[\s+", "[", j)
+            j = re.sub(r"\s+\]", "]", j)
+            out.append(j)
+            continue
+        out.append(ln)
+        i += 1
+    return out
+
+
 def run_tlc(spec, cfg_path, workdir, workers=8, timeout=600, simulate=None, depth=None,
             seed=None, coverage=False, extra=None, heap=None, dfs=False, env=None, quiet=False):
     """Run TLC on spec (module name, found in SPEC dir) with cfg_path. Returns TlcResult."""
@@ -220,7 +249,7 @@ def run_tlc(spec, cfg_path, workdir, workers=8, timeout=600, simulate=None, dept
     r.wall = time.time() - t0
     r.out = out
     shutil.rmtree(meta, ignore_errors=True)
-    for line in out.splitlines():
+    for line in _join_wrapped(out.splitlines()):
         m = _PRINT_RE.match(line)
         if m:
             r.prints.append((m.group(1), m.group(2)))
